@@ -108,6 +108,8 @@ pub enum Op {
     RaceCreate { n: usize },
     /// C18: kill a worker with an injected write error on the next segment write, then observe
     KillWorker,
+    /// C18: rollback() under I/O errors (it fails), then observe the lock, then rollback again
+    FaultyRollback,
 }
 
 #[derive(Clone, Debug, PartialEq, Serialize, Deserialize)]
